@@ -36,6 +36,7 @@ var (
 type Pool struct {
 	New   func() interface{}
 	real  sync.Pool
+	once  sync.Once
 	Stack []interface{}
 	name  string
 	reg   bool
@@ -63,9 +64,7 @@ func (p *Pool) Name() string { return p.name }
 
 func (p *Pool) Get() interface{} {
 	if !Controlled {
-		if p.real.New == nil && p.New != nil {
-			p.real.New = p.New
-		}
+		p.once.Do(func() { p.real.New = p.New })
 		return p.real.Get()
 	}
 	p.register()
